@@ -23,7 +23,8 @@ tolerance), so both are covered.
 **Part B — the reducer.**  `reducer_run_refines` (the code-shaped machine — `_initial`, ring
 storage, lazy initialise, `reset`/`deinitialize`, `align`+`flip`, `select` — refines the
 list-of-fold-values specification over ALL operation sequences), `reducer_history`,
-`dump_newest_first`, `clear_then_run_eq_fresh_run`, `view_on_grid`, `view_off_grid` and its four
+`dump_newest_first`, `clear_then_run_eq_fresh_run` (unconditional since the D34 repair),
+`resize_while_observing`, `view_on_grid`, `view_off_grid` and its four
 reducer-specific forms, `decay_recomputed_on_dt_change`, and two end-to-end corollaries
 (`cumulative_reducer_history`, `ca_reducer_history`).
 -/
@@ -186,14 +187,16 @@ kind, every reachable state and EVERY finite sequence over {observe (in-place or
 (keepshape or not), peek, dump, view (scalar / tensor time), `dt =`, `duration =`}, the code-shaped
 machine (`_initial` flag, ring storage created lazily on the first observation, `reset(fill)` /
 `deinitialize`, `align(0)`+`flip`, `select` on the ring) produces the same outputs as the
-list-of-fold-values specification, and stays reachable.  Side condition: the temporal setters pad a
-grown record with zeros, so with a non-zero fill they are excluded (see `resize_after_clear_witness`). -/
+list-of-fold-values specification, and stays reachable.  No side condition: the first observation
+after a clear refills kept storage with the fill value (D34 repair), so a `dt` / `duration`
+assignment between a `clear(keepshape=True)` and that observation is invisible; a resize of an
+ALREADY-OBSERVING reducer is specified by `resize_while_observing`. -/
 theorem reducer_run_refines (K : Kind α ω) (hsz : ∀ a b c, 0 < K.recsz a b c) (ops : List (Op α ω))
-    (s : State α) (hi : Inv K s) (hop : K.fill = K.zero ∨ ∀ op ∈ ops, op.isResize = false) :
+    (s : State α) (hi : Inv K s) :
     sabs (run K s ops).1 = (srun K (sabs s) ops).1 ∧
     (run K s ops).2 = (srun K (sabs s) ops).2 ∧
     Inv K (run K s ops).1 :=
-  run_refines K hsz ops s hi hop
+  run_refines K hsz ops s hi
 
 /-- A newly constructed reducer is reachable. -/
 theorem reducer_init_inv (K : Kind α ω) (hsz : ∀ a b c, 0 < K.recsz a b c) (dt dur : α) (incl : Bool)
@@ -235,18 +238,66 @@ theorem dump_newest_first (K : Kind α ω) (hsz : ∀ a b c, 0 < K.recsz a b c) 
   rw [dump_eq_newest r hw, hnew]; rfl
 
 /-- **Clearing returns the reducer to its pre-first-observation behaviour.**  From every reachable
-state, for BOTH values of `keepshape`, and for EVERY subsequent operation sequence, a cleared
+state, for BOTH values of `keepshape`, and for EVERY subsequent operation sequence (including `dt` /
+`duration` assignments that grow the record before the next observation, for any fill value), a cleared
 reducer and a newly constructed one (same configuration) produce identical outputs on every
 observable (`peek`, `dump`, `view`, and the `None`s before the first observation). -/
 theorem clear_then_run_eq_fresh_run (K : Kind α ω) (hsz : ∀ a b c, 0 < K.recsz a b c) (s : State α)
-    (hi : Inv K s) (keepshape : Bool) (ops : List (Op α ω))
-    (hop : K.fill = K.zero ∨ ∀ op ∈ ops, op.isResize = false) :
+    (hi : Inv K s) (keepshape : Bool) (ops : List (Op α ω)) :
     (run K (step K s (.clear keepshape)).1 ops).2 = (run K (freshOf K s) ops).2 := by
-  obtain ⟨h1, _, h3⟩ := step_refines K hsz s hi (.clear keepshape) (Or.inr (by simp [Op.isResize]))
-  obtain ⟨_, a2, _⟩ := run_refines K hsz ops _ h3 hop
-  obtain ⟨_, b2, _⟩ := run_refines K hsz ops _ (freshOf_inv K s hi) hop
+  obtain ⟨h1, _, h3⟩ := step_refines K hsz s hi (.clear keepshape)
+  obtain ⟨_, a2, _⟩ := run_refines K hsz ops _ h3
+  obtain ⟨_, b2, _⟩ := run_refines K hsz ops _ (freshOf_inv K s hi)
   rw [a2, b2, h1]
   congr 2
+
+/-- **Resizing an already-observing reducer** (`dt =` / `duration =` changing the record size from
+`n` to `n'` after at least one observation since the last clear — C13's tail-preserving resize):
+the storage stays a well-formed ring, now of `n'` slots; what was recorded `k` steps back stays
+`k` steps back for `k < min n n'`; slots `n ≤ k < n'` added by a growth hold ZERO (what
+`__make_compatible` pads with), NOT the reducer's fill value, until overwritten by observations or
+refilled by the first observation after the next `clear`. -/
+theorem resize_while_observing (K : Kind α ω) (hsz : ∀ a b c, 0 < K.recsz a b c) (s : State α)
+    (hi : Inv K s) (hni : s.initial = false) (op : Op α ω) (n' : ℕ)
+    (hop : (∃ v, op = .setDt v ∧ n' = K.recsz v s.dur s.incl) ∨
+           (∃ v, op = .setDur v ∧ n' = K.recsz s.dt v s.incl)) :
+    ∃ r r', s.data = some r ∧ (step K s op).1.data = some r' ∧ (step K s op).1.initial = false ∧
+      (step K s op).1.n = n' ∧ r'.WF ∧ r'.n = n' ∧
+      ∀ k, k < n' → r'.read (1 + (k : ℤ)) = if k < s.n then r.read (1 + (k : ℤ)) else some K.zero := by
+  obtain ⟨dt, dur, incl, n, ini, data, p⟩ := s
+  simp only at hni; subst hni
+  obtain ⟨hn, r, hd, hw, hrn⟩ := hi
+  simp only at hd hrn hn; subst hd
+  have hn' : 0 < n' := by
+    rcases hop with ⟨v, _, h⟩ | ⟨v, _, h⟩ <;> rw [h] <;> exact hsz _ _ _
+  have key : ∃ r', (if n' = n then r else r.reconstrain0 n' K.zero) = r' ∧ r'.WF ∧ r'.n = n' ∧
+      ∀ k, k < n' → r'.read (1 + (k : ℤ)) = if k < n then r.read (1 + (k : ℤ)) else some K.zero := by
+    refine ⟨_, rfl, ?_, ?_, ?_⟩
+    · split
+      · exact hw
+      · exact reconstrain0_wf _ _ hn' _
+    · split
+      · rename_i h; rw [hrn, h]
+      · rfl
+    · intro k hk
+      split
+      · rename_i h; subst h; rw [if_pos hk]
+      · have hw' := reconstrain0_wf r n' hn' K.zero
+        rw [read_of_newest _ hw' _ (reconstrain0_newest r hw n' K.zero) k hk]
+        have hl := newest_length r hw
+        unfold specResize
+        rw [List.getElem?_take, if_pos hk]
+        by_cases hkn : k < n
+        · rw [if_pos hkn, List.getElem?_append_left (by omega),
+            read_of_newest r hw _ rfl k (by omega)]
+        · rw [if_neg hkn, List.getElem?_append_right (by omega), List.getElem?_replicate,
+            if_pos (by omega)]
+  obtain ⟨r', hr', hw', hrn', hread⟩ := key
+  rcases hop with ⟨v, rfl, h⟩ | ⟨v, rfl, h⟩
+  · refine ⟨r, r', rfl, ?_, rfl, h.symm, hw', hrn', hread⟩
+    simp only [step, resizeData, Option.map_some, ← h, hr']
+  · refine ⟨r, r', rfl, ?_, rfl, h.symm, hw', hrn', hread⟩
+    simp only [step, resizeData, Option.map_some, ← h, hr']
 
 end Machine
 
@@ -468,15 +519,20 @@ example : ∃ v e : ℝ, (step exR exRs (.view (1 / 2) 0 true)).2 = .sel (.ok (v
   rw [e] at h
   exact ⟨_, _, h, by simp only [init]; norm_num⟩
 
-/-- **The excluded case is real**: with a non-zero fill, growing the record between
-`clear(keepshape=True)` and the next observation leaves zeros (not the fill) in the new slots, so
-the cleared reducer and a new one differ — the side condition of `clear_then_run_eq_fresh_run`
-cannot be dropped.  (`/repo`: `EventReducer(initial="inf")`; see the final report.) -/
-theorem resize_after_clear_witness :
+/-- **Repaired behaviour (D34), concretely**: growing the record between `clear(keepshape=True)`
+and the next observation leaves the FILL value (7 here), not zeros, in the new slots — exactly what
+a newly constructed reducer shows (`clear_then_run_eq_fresh_run` is the general statement). -/
+theorem resize_after_clear_refilled :
     (run exK (step exK (run exK exS0 [.observe 1 true]).1 (.clear true)).1
-        [.setDur 4, .observe 9 false, .dump]).2 = [.unit, .unit, .hist [9, 7, 7, 7, 0]] ∧
+        [.setDur 4, .observe 9 false, .dump]).2 = [.unit, .unit, .hist [9, 7, 7, 7, 7]] ∧
     (run exK (freshOf exK (run exK exS0 [.observe 1 true]).1)
         [.setDur 4, .observe 9 false, .dump]).2 = [.unit, .unit, .hist [9, 7, 7, 7, 7]] := by decide
+
+/-- **Zero padding while observing is real** (`resize_while_observing`): growing the record of a
+reducer that has already observed pads with `0`, not with the fill value `7`. -/
+theorem resize_while_observing_pads_zero_witness :
+    (run exK exS0 [.observe 1 true, .setDur 4, .dump, .observe 2 false, .dump]).2 =
+      [.unit, .unit, .hist [1, 7, 7, 0, 0], .unit, .hist [3, 1, 7, 7, 0]] := by decide
 
 end InfernoVerif.Reducer
 
